@@ -179,6 +179,9 @@ def cost_field_neighbours():
 INVALID_SETTINGS += cost_field_neighbours()
 
 
+
+
+
 def ynum(v, minv):
     """yescrypt's variable-length numeral for small values (one character for v - minv <= 47, else two)"""
     v -= minv
@@ -322,3 +325,37 @@ def grammar_boundaries(m, rng):
                 "$7$4/..../....$" + S(43), "$7$4/..../...", "$7$4/....", "$7$4", "$7$", "$7", "$7$4/..../...-" + S(4), "$7$4/..../...." + S(3) + "-" + S(3),
                 "$7$4/..-./...." + S(4)]
     return out
+
+
+def yparams_full(tag, flavor, nlog2, r, p=None, t=None, g=None, nrom=None):
+    """a yescrypt parameter string with any subset of the optional fields p, t, g, NROM (have bits 1, 2, 4, 8)"""
+    s = tag + flavor + ynum(nlog2, 1) + ynum(r, 1)
+    have = (1 if p is not None else 0) | (2 if t is not None else 0) | (4 if g is not None else 0) | (8 if nrom is not None else 0)
+    if have:
+        s += ynum(have, 1)
+        if p is not None: s += ynum(p, 2)
+        if t is not None: s += ynum(t, 1)
+        if g is not None: s += ynum(g, 1)
+        if nrom is not None: s += ynum(nrom, 1)
+    return s + "$"
+
+
+def kdf_rejected_params():
+    """yescrypt-family settings whose parameters DECODE but which yescrypt_kdf must refuse before allocating:
+    other flavours / modes, t, g or NROM where not allowed, N <= 3, N/p <= 3, r*p >= 2^30, r or p = 0"""
+    out = []
+    ys = "saltsalt"
+    for tag in ("$y$", "$gy$"):
+        for fl in ".", "/", "0", "1", "2", "i", "k", "l", "T":           # classic / WORM / unsupported pwxform flavours
+            out += [yparams_full(tag, fl, 6, 5) + ys, yparams_full(tag, fl, 6, 5, t=1) + ys]
+        out += [yparams_full(tag, "j", 1, 5) + ys, yparams_full(tag, "j", 2, 5, p=2) + ys, yparams_full(tag, "j", 3, 5, p=2) + ys,
+                yparams_full(tag, "j", 3, 5, p=3) + ys, yparams_full(tag, "j", 6, 5, p=40) + ys]                 # N <= 3, N/p <= 3
+        out += [yparams_full(tag, "j", 6, 5, g=1) + ys, yparams_full(tag, "j", 6, 5, g=2) + ys, yparams_full(tag, "j", 6, 5, p=2, t=1, g=1) + ys]
+        out += [yparams_full(tag, "j", 6, 5, nrom=10) + ys, yparams_full(tag, "j", 6, 5, p=2, t=1, g=1, nrom=12) + ys, yparams_full(tag, "j", 6, 5, t=0, nrom=3) + ys]
+    for r, pp in (".....", "/...."), ("/....", "....."), (".....", "....."), ("....E", "....E"), ("zzzzz", "zzzzz"), ("....2", "....2"):
+        out.append("$7$4" + r + pp + ys)
+    out += ["$7$//..../...." + ys, "$7$./..../...." + ys]                     # N = 2 and N_log2 = 0
+    return out
+
+
+INVALID_SETTINGS += kdf_rejected_params()
